@@ -4,7 +4,7 @@ import difflib, json, os
 VERIF = os.path.dirname(os.path.dirname(os.path.abspath(__file__)))
 
 
-def mk(prop, name, rules, expect, desc, silent, edits, control=False):
+def mk(prop, name, rules, expect, desc, silent, edits, control=False, benign=False):
     d = os.path.join(VERIF, 'mutants', prop)
     os.makedirs(d, exist_ok=True)
     out = []
@@ -20,5 +20,5 @@ def mk(prop, name, rules, expect, desc, silent, edits, control=False):
             dst = dst.replace(old, new)
         out.extend(difflib.unified_diff(src.splitlines(True), dst.splitlines(True), 'a/' + f, 'b/' + f))
     open(os.path.join(d, name + '.diff'), 'w').write(''.join(out))
-    json.dump(dict(property=prop, rules=rules, expect=expect, description=desc, suite_silent=silent, control=control),
+    json.dump(dict(property=prop, rules=rules, expect=expect, description=desc, suite_silent=silent, control=control, **({'benign': True} if benign else {})),
               open(os.path.join(d, name + '.json'), 'w'), indent=1)
